@@ -1,7 +1,12 @@
 package kafka
 
 import (
+	"context"
+
+	"github.com/ozontech/file.d/decoder"
 	"github.com/ozontech/file.d/pipeline"
+	"github.com/ozontech/file.d/pipeline/metadata"
+	"go.uber.org/zap"
 	"github.com/twmb/franz-go/pkg/kgo"
 
 	vf "github.com/ozontech/file.d/zzverif"
@@ -67,4 +72,52 @@ func VerifH_C10_packing() {
 	vf.Assert(e.Offset <= off+1, "marked-at-most-one-past")
 	vf.Assert(e.Epoch == epoch, "marked-epoch")
 	vf.Reach("commit-marked")
+}
+
+// stubs for Start: no broker, no consuming goroutine
+func verifStubNewClient(c *Config, l *zap.Logger, s Consumer) *kgo.Client { return nil }
+func verifStubConsume(s *splitConsume, ctx context.Context, cl *kgo.Client) {}
+
+type verifCtl struct{}
+
+func (verifCtl) In(pipeline.SourceID, string, pipeline.Offsets, []byte, bool, metadata.MetaData) uint64 {
+	return 0
+}
+func (verifCtl) UseSpread()                      {}
+func (verifCtl) DisableStreams()                 {}
+func (verifCtl) SuggestDecoder(decoder.Type)     {}
+func (verifCtl) IncReadOps()                     {}
+func (verifCtl) IncMaxEventSizeExceeded(...string) {}
+
+// C10.H1b: the topic a record is tagged with at consumption (Start's topic table, used by the
+// consumer) is the topic Commit marks, for every topics list including repeated entries.
+func VerifH_C10_topicTable() {
+	names := []string{"orders", "payments"}
+	n := 1 + vf.Choose("ntopics", 3)
+	topics := make([]string, n)
+	for i := range topics {
+		topics[i] = names[vf.Choose("topic", 2)]
+	}
+	p := &Plugin{}
+	p.Start(&Config{Topics: topics}, &pipeline.InputPluginParams{Controller: verifCtl{}})
+	// a record of one of the consumed topics
+	topic := topics[vf.Choose("record-topic", n)]
+	part := int32(vf.Int("partition", 0, 65535))
+	off := vf.Int64("offset", 0, 1<<47-1)
+	topicID := p.s.idByTopic[topic] // what the partition consumer is created with
+	ev := &pipeline.Event{SourceID: assembleSourceID(topicID, part), Offset: assembleOffset(&kgo.Record{Partition: part, Offset: off})}
+	verifMarked, verifMarkCalls = nil, 0
+	p.Commit(ev)
+	if vf.Param("twin", 0) == 1 {
+		_, ok := verifMarked[topic]
+		vf.Assert(!ok, "marked-the-records-own-topic")
+		return
+	}
+	m, ok := verifMarked[topic]
+	vf.Assert(ok && len(verifMarked) == 1, "marked-the-records-own-topic")
+	if ok {
+		e, ok2 := m[part]
+		vf.Assert(ok2 && e.Offset == off+1, "marked-offset-is-next")
+	}
+	vf.Reach("topic-table-checked")
 }
